@@ -319,7 +319,7 @@ def run(ctx):
     import bempp_cl.api.space.space as sp
 
     ctx.bound("race analysis", "2 symbolic iterations (unbounded iteration numbers and element indices); %d quadrature points, %d shape functions, 2 trial elements, uniform neighbour count %d in the FMM helpers" % (Q, NSH, NN))
-    ctx.bound("colouring", "symbolic local2global of 3 elements x 2 local dofs with values < 3 (quick) / 3 x 3 with values < 4 (thorough)")
+    ctx.bound("colouring", "symbolic local2global of 3 elements x 2 local dofs with values < 3 (quick) / 3 x 3 with values < 3 (thorough)")
     ctx.out("Numba's scheduler and fastmath re-association inside one iteration (each iteration is sequential and deterministic)")
     ctx.stub("numeric values are opaque; geometry helpers (get_normals, get_global_points, get_piola_transform, get_edge_lengths, elements_adjacent) return opaque arrays")
     found = scan_parallel()
@@ -356,7 +356,7 @@ def run(ctx):
 
     # ---------------- (ii) colouring on a symbolic local2global table
     t0 = time.time()
-    NEL, NLOC, D = (3, 3, 4) if ctx.thorough else (3, 2, 3)
+    NEL, NLOC, D = (3, 3, 3) if ctx.thorough else (3, 2, 3)
     lv = [[z3.Int("l2g_%d_%d" % (e, i)) for i in range(NLOC)] for e in range(NEL)]
     l2g = np.empty((NEL, NLOC), dtype=object)
     for e in range(NEL):
